@@ -35,7 +35,8 @@ def main():
                                 reason=ps['reason'], log=ps.get('log', '')[-1500:]), False))
 
     # ---- 2. tie (+ corpus first), 3. known findings
-    tie = mod.run(args.tier)          # dict(coverage=..., failures=[payload...], known=[(id, text)], assumptions=[...])
+    tie = mod.run(args.tier)
+    tie.pop('cases', None)          # dict(coverage=..., failures=[payload...], known=[(id, text)], assumptions=[...])
     kf = common.known_findings(prop)
     open_ids = {k['id']: k for k in kf if k['kind'] == 'finding'}
     for f in tie['failures']:
